@@ -1,11 +1,16 @@
 """C06 Protocol v5 segments are reassembled exactly and corruption is detected.
 
+Connection setup: a v5 VConnection is taken through the handshakes READY, AUTHENTICATE + AUTH_SUCCESS
+and AUTHENTICATE + AUTH_CHALLENGE + AUTH_SUCCESS, without and with lz4, one answer of the node at a
+time and under every splitting of a stated family; the node reads what the driver sends with the
+independent segment reader in the negotiated form.
 Incoming: response streams are written by the independent segment writer of vt.world.wire (plain
 form, lz4 form, "left uncompressed inside an lz4 connection" form; self-contained segments with
-one or several frames, frames spanning several segments, frame sizes around the 128 KiB - 1
-payload limit) and fed to a handshaken v5 VConnection under every splitting of a stated family.
+one or several frames alone and followed by further segments, frames spanning several segments,
+frame sizes around the 128 KiB - 1 payload limit) and fed to the connection after each of those
+handshakes under every splitting of a stated family.
 Outgoing: requests of boundary sizes are encoded by the driver and read back by the independent
-reader.  Corruption: every single-bit flip of small two-segment streams x every one-cut split.
+reader.  Corruption: every single-bit flip of small multi-segment streams x every one-cut split.
 """
 import hashlib
 
@@ -16,15 +21,27 @@ META = {
     'level': 'exploration',
     'engine': 'E',
     'technique': 'exhaustive enumeration of read splittings and single-bit faults of v5 segment streams on the real Connection',
-    'text': 'A handshaken protocol-v5 connection (no compression / lz4 via the pure-Python lz4 block codec in /verif/stubs) '
+    'text': 'A protocol-v5 connection (no compression / lz4 via the pure-Python lz4 block codec in /verif/stubs) is set up by each of '
+            'the handshakes STARTUP->READY, STARTUP->AUTHENTICATE->AUTH_RESPONSE->AUTH_SUCCESS and the same with one AUTH_CHALLENGE '
+            'round (PlainTextAuthenticator), the answers of the node fed one at a time under all splittings with <=2 cuts of one '
+            'answer and one byte per read: everything the driver sends once framing is on must be readable by the independent '
+            'segment reader of the node in the negotiated form (plain / lz4 header) with the SASL tokens intact, no intact answer '
+            'may fail the connection, and each answer must have its effect exactly when its last byte has arrived.  After each '
+            'handshake the connection '
             'receives segment streams written by an independent writer: small streams (one frame, two segments, two frames in '
-            'one segment, a frame spread over two non-self-contained segments, compressed and left-uncompressed lz4 segments in '
-            'both orders) under all splittings with <=2 cuts anywhere, <=3 cuts next to header/CRC/payload boundaries and one byte '
-            'per read; frames of MAX-1, MAX, MAX+1, 2*MAX, 2*MAX+5 bytes (MAX = 131071) alone and next to a small frame under '
+            'one segment, a frame spread over two non-self-contained segments, segments with two or three coalesced frames '
+            'followed by a one-frame segment / another coalesced segment / a multi-segment frame, also behind a multi-segment frame, '
+            'compressed and left-uncompressed lz4 segments in both orders, with one and with two frames) under all splittings with '
+            '<=2 cuts anywhere, <=3 cuts next to header/CRC/payload boundaries and one byte '
+            'per read (after the two authenticating handshakes: <=1 cut anywhere, <=2 next to boundaries, one byte per read); '
+            'frames of MAX-1, MAX, MAX+1, 2*MAX, 2*MAX+5 bytes (MAX = 131071) alone, next to a small frame and behind a '
+            'two-frame segment under '
             'all 1- and 2-cut splittings with cuts next to every segment boundary.  After each read the frames delivered to the '
-            'handlers registered by send_msg must be exactly those whose last segment has completely arrived, and the '
+            'handlers registered by send_msg must be exactly those whose last segment has completely arrived (frames held back '
+            'while the read ends inside a later segment are reported under C06/clean-withheld and followed to the end of the '
+            'stream), and the '
             'connection must not fail.  The driver\'s own encoder is read back by the independent reader for request sizes '
-            'around the segment limit.  Every single-bit flip of four small two-segment streams (self-contained and not, plain and both lz4 forms) x every 1-cut split must '
+            'around the segment limit.  Every single-bit flip of five small multi-segment streams (self-contained and not, coalesced, plain and both lz4 forms) x every 1-cut split must '
             'leave the connection defunct with CrcMismatchException and deliver only unaltered frames of earlier segments.',
     'note': 'Trusted: vt.world.wire segment writer/reader (CRC24/CRC32 per native_protocol_v5.spec) and the lz4 block codec stub '
             '(self-tested on hand-written vectors).  Small non-self-contained segments are legal on the wire but not produced by '
@@ -412,6 +429,7 @@ def receive(st, cuts, part, flip=None, hs='ready'):
             data = bytes(b)
         fed = 0
         bad = None
+        withheld = None
         ends = []
         for ch in connlib.chunks(data, cuts):
             try:
@@ -438,7 +456,18 @@ def receive(st, cuts, part, flip=None, hs='ready'):
                 elif len(real) > done:
                     bad = ('clean-early', '%d frames delivered after %d bytes, only %d have completely arrived' % (len(real), fed, done))
                 elif len(real) < done:
-                    bad = ('clean', 'lost: after %d bytes %d frames have completely arrived, %d delivered' % (fed, done, len(real)))
+                    if any(s[0] < fed < s[4] for s in st.segs):
+                        # the read ends inside a later segment: the frames may still come out when that segment is
+                        # complete -- reported under its own fingerprint, and the execution goes on so that what
+                        # happens to them afterwards is judged as well
+                        if withheld is None:
+                            k = max(i for i, s in enumerate(st.segs) if s[4] <= fed)
+                            withheld = ('clean-withheld', '%d frames have completely arrived after %d bytes, only %d delivered: '
+                                        'the rest is held back while the read ends %d byte(s) into the next segment' % (
+                                            done, fed, len(real), fed - st.segs[k][4]),
+                                        'coalesced-segment-then-partial-segment' if st.nframes[k] >= 2 else 'partial-segment-follows')
+                    else:
+                        bad = ('clean', 'lost: after %d bytes %d frames have completely arrived, %d delivered' % (fed, done, len(real)))
                 if bad:
                     break
             else:
@@ -460,8 +489,11 @@ def receive(st, cuts, part, flip=None, hs='ready'):
                                                zip(st.segs[k][:4], st.segs[k][1:5])) if a <= (flip >> 3) < b][0]
                 bad = ('flip-undetected', 'bit %d (segment %d %s) flipped: defunct=%r last_error=%r' % (
                     flip, k, where, conn.is_defunct, conn.last_error))
+        if withheld:
+            part.violation('C06/%s/%s/%s' % (withheld[0], withheld[2], case['codec']), '%s; case %r' % (withheld[1], case), case)
         if bad:
             part.violation('C06/%s/%s/%s' % (bad[0], st.trigger(ends), codec), '%s; case %r' % (bad[1], case), case)
+        bad = bad or withheld
         part.count('evaluations')
         part.count('executions')
         part.outcome(('lz4' if st.lz4 else 'plain', 'flip' if flip is not None else 'clean', len([e for e in log if e[1] != 'exc']), bool(conn.is_defunct)))
@@ -736,7 +768,7 @@ def run(ctx):
                           '' if ctx.quick else ' U every composition of the one-empty-frame streams', auth_hs, auth_anywhere, auth_nearb,
                           bigs, bigs_lz4, '; %s also after %s' % (bigs_auth, auth_hs) if bigs_auth else '', r1, r2, sizes, auth_hs, sizes_auth,
                           len(FLIP_STREAMS), [n for _, n in FLIP_STREAMS], kcuts))
-    ctx.cov['exhaustive'] = True
+    ctx.cov['exhaustive'] = not ctx.caps_hit      # caps are hit only when reads stopped returning (C06/livelock)
     ctx.assume('stream ids after the handshake are handed out in the order first, first+1, ... (first = number of handshake requests; '
                'checked at every execution)')
     ctx.assume('a node leaves a segment payload uncompressed exactly when compressing does not make it smaller')
